@@ -796,21 +796,17 @@ func c04ForwarderRace(p *Program, r *Report) {
 				if !g.DominatedByEdges(a.Node, map[edge]bool{e: true}) {
 					continue
 				}
+				// same critical section: no path from the load to the append passes an unlock of the mutex
 				unlocks := nodesWhere(g, func(in ssa.Instruction) bool { op, lf := lockOp(in); return lf == f.Mu && op == "Unlock" })
-				if g.Reach([]int{e.to}, unlocks, nil)[a.Node] || a.Node == e.to {
-					// reachable without passing an unlock: same critical section
-					clean := true
-					for u := range unlocks {
-						if g.ReachAfter(ld, setOf(a.Node), nil)[u] && g.ReachAfter(u, nil, nil)[a.Node] && !g.mustPass(u, a.Node, nodesWhere(g, func(in ssa.Instruction) bool { return false })) {
-							// an unlock between the load and the store on some path
-							if g.ReachAfter(ld, setOf(a.Node), nil)[u] {
-								clean = false
-							}
-						}
+				same := true
+				fromLoad := g.ReachAfter(ld, setOf(a.Node), nil)
+				for u := range unlocks {
+					if fromLoad[u] && g.ReachAfter(u, nil, nil)[a.Node] {
+						same = false
 					}
-					if clean {
-						ok2 = true
-					}
+				}
+				if same {
+					ok2 = true
 				}
 			}
 		}
